@@ -34,7 +34,7 @@ def variant_outcomes(rows, enum, first_subject):
         m = re.match(r"^(\S+)∈%s::(\w+)" % enum, key)
         if m:
             out.setdefault(m.group(2), []).append((key, row))
-        elif re.match(r"^(\S+)∈_", key):
+        elif re.match(r"^(\S+)∈_", key) or key == "":
             out.setdefault("_", []).append((key, row))
     return out
 
